@@ -21,23 +21,23 @@ var profiles = map[string]Profile{
 	// C14: version bookkeeping, overwrites, loads of every kind
 	"C14": {Name: "C14", MinOps: 12, MaxOps: 45, Keys: 5, EmptyVals: false, ObsEvery: 3,
 		Initials: []int64{-1, -1, 1, 7, 1 << 40},
-		W:        map[string]int{"set": 18, "rm": 10, "save": 22, "rollback": 3, "reopen": 8, "load": 8, "prune": 8, "lvfo": 4, "resave": 8}},
+		W:        map[string]int{"set": 18, "rm": 10, "save": 22, "rollback": 3, "reopen": 8, "load": 8, "prune": 8, "lvfo": 4, "resave": 8, "pintest": 4}},
 	// C11: balance under ordered insertions and removals
 	"C11": {Name: "C11", MinOps: 30, MaxOps: 150, Keys: 40, EmptyVals: false, ObsEvery: 25,
 		W: map[string]int{"set": 60, "rm": 22, "save": 6, "reopen": 1, "costs": 4}},
 	// C09: rollback / LoadVersionForOverwriting heavy
-	"C09": {Name: "C09", MinOps: 15, MaxOps: 60, Keys: 8, EmptyVals: true, ObsEvery: 5, ToggleFast: false,
+	"C09": {Name: "C09", MinOps: 15, MaxOps: 60, Keys: 8, EmptyVals: true, ObsEvery: 5, ToggleFast: true,
 		Initials: []int64{-1, -1, 1, 7},
-		W:        map[string]int{"set": 35, "rm": 14, "save": 16, "rollback": 8, "reopen": 4, "prune": 4, "lvfo": 9, "load": 2}},
+		W:        map[string]int{"set": 35, "rm": 14, "save": 16, "rollback": 8, "reopen": 4, "prune": 4, "lvfo": 9, "load": 2, "staleidx": 3}},
 	// C04: pruning heavy, commits without writes, single-leaf roots
 	"C04": {Name: "C04", MinOps: 15, MaxOps: 60, Keys: 6, EmptyVals: true, ObsEvery: 4,
 		Initials: []int64{-1, -1, 1, 7},
-		W:        map[string]int{"set": 25, "rm": 14, "save": 25, "rollback": 3, "reopen": 6, "prune": 14, "lvfo": 3}},
+		W:        map[string]int{"set": 25, "rm": 14, "save": 25, "rollback": 3, "reopen": 6, "prune": 14, "lvfo": 3, "pintest": 3}},
 	// C04w: the same with recorded deletions (physical writes and flush positions against
 	// PruneAlgo.prune_forest) under small flush thresholds
 	"C04w": {Name: "C04w", MinOps: 15, MaxOps: 60, Keys: 6, EmptyVals: true, ObsEvery: 4, WPrune: true,
 		Initials: []int64{-1, -1, 1, 7},
-		W:        map[string]int{"set": 25, "rm": 14, "save": 25, "rollback": 3, "reopen": 6, "prune": 14, "lvfo": 6, "rekeychain": 5}},
+		W:        map[string]int{"set": 25, "rm": 14, "save": 25, "rollback": 3, "reopen": 6, "prune": 14, "lvfo": 6, "rekeychain": 5, "pintest": 3}},
 	// C07: the fast index against the tree walk, each reopen chooses index on/off
 	"C07": {Name: "C07", MinOps: 15, MaxOps: 60, Keys: 8, EmptyVals: true, ObsEvery: 3, ToggleFast: true,
 		Initials: []int64{-1, -1, 1, 7},
@@ -59,7 +59,7 @@ var profiles = map[string]Profile{
 	// C17: storage faults at every call position
 	"C17": {Name: "C17", MinOps: 8, MaxOps: 30, Keys: 8, EmptyVals: false, ObsEvery: 0,
 		Initials: []int64{-1, -1, 7},
-		W:        map[string]int{"set": 45, "rm": 15, "save": 6, "faults": 8, "faultsave": 8, "faultprune": 4, "faultimport": 3, "rollback": 2, "reopen": 2}},
+		W:        map[string]int{"set": 45, "rm": 15, "save": 6, "faults": 8, "faultsave": 8, "faultprune": 4, "faultimport": 3, "faultreopen": 3, "rollback": 2, "reopen": 2}},
 	// C10: export / import of any retained version (empty tree, single leaf, inherited root, larger)
 	"C10": {Name: "C10", MinOps: 6, MaxOps: 45, Keys: 9, EmptyVals: true, ObsEvery: 0,
 		Initials: []int64{-1, -1, 1, 7},
